@@ -13,13 +13,24 @@ import (
    I will be making some changes to the grammar but I do want it to be as close to the specification as possible
 */
 
-func parse_regexp(tokens []*Token, token_index int) (AstExpression, int, error) {
+func parse_regexp(tokens []*Token, token_index int) (result AstExpression, next_index int, err error) {
 	regexp_token := tokens[token_index]
 	regexp := regexp_token.Lexeme
 
-	results, _, err := parse_regexp_disjunction(regexp_token, regexp, 0)
+	// the sub-parser indexes the pattern without bounds checks and panics on unsupported
+	// constructs; a malformed or unsupported pattern must surface as a parse error
+	defer func() {
+		if r := recover(); r != nil {
+			result, next_index, err = nil, token_index, NewParseError(regexp_token, fmt.Sprintf("Malformed or unsupported regular expression (%v)", r))
+		}
+	}()
+
+	results, end_index, err := parse_regexp_disjunction(regexp_token, regexp, 0)
 	if err != nil {
 		return nil, token_index, err
+	}
+	if end_index < len(regexp) {
+		return nil, token_index, NewParseError(regexp_token, "Unexpected ')' in regular expression")
 	}
 
 	s := &AstPrimary{
